@@ -1849,6 +1849,39 @@ class Module(ABC):
             # Only reset those which no other channel in the same compartment uses.
             other_channels = [c for c in self.base.channels if c._name != name]
             nodes = self.base.nodes
+
+            # If this removes the channel from the entire module, its columns and its
+            # current disappear. Recordings, clamps or trainables which still refer to
+            # them made `integrate` fail with a KeyError afterwards.
+            remains = nodes[name].to_numpy().astype(bool)
+            remains[self._nodes_in_view] = False
+            if not remains.any():
+                dropped = [
+                    col
+                    for col in channel_cols
+                    if not any(
+                        col in c.channel_params or col in c.channel_states
+                        for c in other_channels
+                    )
+                ]
+                if channel.current_name not in [c.current_name for c in other_channels]:
+                    dropped.append(channel.current_name)
+                recorded = (
+                    self.base.recordings["state"].tolist()
+                    if len(self.base.recordings) > 0
+                    else []
+                )
+                trained = [next(iter(p.keys())) for p in self.base.trainable_params]
+                in_use = sorted(
+                    set(dropped)
+                    & (set(recorded) | set(self.base.externals.keys()) | set(trained))
+                )
+                if len(in_use) > 0:
+                    raise ValueError(
+                        f"Cannot delete channel {name}: {in_use} are still recorded, "
+                        f"clamped or trainable. Remove these with `delete_recordings()`, "
+                        f"`delete_clamps()` or `delete_trainables()` first."
+                    )
             has_channel = nodes.loc[self._nodes_in_view, name].to_numpy().astype(bool)
             rows = self._nodes_in_view[has_channel]
             for col in channel_cols:
